@@ -5,7 +5,7 @@ import vlib, armlib, fake_translate
 def run(res, tier, seed, replay):
     res.cov["rule"] = ("generated model: tools/fake_translate.py parses EVERY arm of macro_rules! fake in the current macros.rs into a record over a 5-constructor statement IR (anything unrecognised becomes Opaque) -> coq/gen/FakeArms.v; the Coq theorems are re-checked against that list. "
                        "tie: for every arm a canonical well-typed instantiation is compiled ALONE with rustc against the library built from the current tree (accept/reject observed) and driven through one common 6-call script (matching / non-matching arguments, over-calls, "
-                       "side-effect probes inside assign, an evaluation counter and the argument inside returns, a logical clock stamped by both to observe their order; arms with a budget and an unwinding ABI are then hit by 8 threads x 1000 calls at a second call site with budget 5000 (exactly 5000 admitted, exit names 5000 and 8000); extern-ABI arms abort at the first panic: the prefix and the abort point are the observation); per call: outcome, assign runs, returns evaluations, value; "
+                       "side-effect probes inside assign, an evaluation counter and the argument inside returns, a logical clock stamped by both to observe their order; the same expression is evaluated in a second lifetime with the same script (same outcomes required); arms with a budget and an unwinding ABI are then hit by 8 threads x 1000 calls at a second call site with budget 5000 (exactly 5000 admitted, exit names 5000 and 8000); extern-ABI arms abort at the first panic: the prefix and the abort point are the observation); per call: outcome, assign runs, returns evaluations, value; "
                        "compared with the generated model (run_arm) and with the reference meaning (ref_call); distinct = arms")
     res.cov["trusted_base"] = vlib.TRUSTED_COMMON + ["tools/fake_translate.py (regex translator of the macro source into the IR; its arm count is checked against the number of `=> {{` in the macro)", "rustc's acceptance of an expansion is observed per arm, not proved"]
     res.assumptions = ["a panic inside an extern \"C\"/\"system\" fake aborts by language rule (outside C05); here it is the expected observation"]
@@ -50,6 +50,12 @@ def run(res, tier, seed, replay):
                         res.violation("assign did not run with the call's arguments in scope", case, r["lines"]); break
                     if l.startswith("CALL") and "order=returns-first" in l:
                         res.violation("`returns` was evaluated BEFORE `assign` ran (assign must run before the result is produced: a result that reads what assign wrote is stale)", case, r["lines"]); break
+        if not exp_abort:
+            def shape(lines): return [(t[2],) + tuple(x for x in t[3:] if x.startswith(("assigns=", "evals="))) for t in (l.split() for l in lines) if len(t) > 2]
+            r1 = shape([l for l in r["lines"] if l.startswith("CALL")]); r2 = shape([l for l in r["lines"] if l.startswith("R2CALL")])
+            e1 = [l.split()[1] for l in r["lines"] if l.startswith("EXIT")]; e2 = [l.split()[1] for l in r["lines"] if l.startswith("R2EXIT")]
+            if r1 != r2 or e1 != e2:
+                res.violation("a second lifetime through the same fake! expression, driven by the same calls, does not behave as the first (the budget of `times` is not whole again)", case, dict(first=r1 + e1, second=r2 + e2))
         if a["times"] and not a["m_abi"]:
             b = [l for l in r["lines"] if l.startswith("BURST ")]; be = [l for l in r["lines"] if l.startswith("BURSTEXIT")]
             tot = armlib.BURST_T * armlib.BURST_CALLS
